@@ -349,6 +349,36 @@ class SugarPrinter(cg.Printer):
         return super().expr(e, prec)
 
 
+BINDING_PRONE = re.compile(r"[A-Za-z_]\w*\s*<(?!=)[^;]*>")
+
+
+def spell(chk, ds, rng):
+    """source text in a random sugar spelling that stays clear of the grammar's generic binding `name<types>`
+    (a `<` after a name with a `>` later in the same statement, see design/C02.md: known finding
+    c02:generic-binding:compile-err, replayed by generic_binding_cases); falls back to the call form"""
+    for _ in range(20):
+        src = SugarPrinter(rng).program(ds)
+        if not BINDING_PRONE.search(src):
+            return src
+        chk.count("respelled:generic-binding")
+    return cg.Printer(None, sugar=False).program(ds)
+
+
+def generic_binding_cases():
+    """well-typed core programs whose comparisons are taken for a generic binding by the grammar"""
+    a, b = ('v', 'a'), ('v', 'b')
+    lt, ge, gt = ('c', 'lt', [a, b]), ('c', 'ge', [b, a]), ('c', 'gt', [b, a])
+    pre = [('let', 'a', ('i', 1), 'int'), ('let', 'b', ('i', 2), 'int')]
+    both = ('fn', 'both', [('x', 'bool', None), ('y', 'bool', None)], 'bool', [], ('c', 'and', [('v', 'x'), ('v', 'y')]))
+    return [
+        (pre + [('let', 'r', ('c', 'if_error', [lt, ge]), 'bool')], "let a = 1;\nlet b = 2;\nlet r = if_error(a < b, b >= a);\n"),
+        (pre + [both, ('let', 'r', ('c', 'both', [lt, gt]), 'bool')],
+         "let a = 1;\nlet b = 2;\nfn both(x: bool, y: bool)->bool{\nx && y\n}\nlet r = both(a < b, b > a);\n"),
+        (pre + [('let', 'r', ('tup', [lt, gt]), None)], "let a = 1;\nlet b = 2;\nlet r = (a < b, b > a);\n"),
+        (pre + [('let', 'r', ('arr', [lt, gt], 'bool'), None)], "let a = 1;\nlet b = 2;\nlet r = [a < b, b > a];\n"),
+    ]
+
+
 PT = ('tup', ['int', 'int'])
 
 
@@ -598,14 +628,17 @@ def run(chk):
     for i in range(120 if quick else 4000):
         g = cg.Gen(rng, max_depth=rng.choice([3, 4, 5]))
         ds = g.program(rng.choice([3, 5, 8]))
-        cases.append(Case(ds, "sugar", src=SugarPrinter(rng).program(ds)))
+        cases.append(Case(ds, "sugar", src=spell(chk, ds, rng)))
     for i in range(120 if quick else 4000):
         ds = overload_program(rng)
-        cases.append(Case(ds, "overload", src=SugarPrinter(rng).program(ds)))
+        cases.append(Case(ds, "overload", src=spell(chk, ds, rng)))
     # the same program in three spellings: all-infix, all-call (no sugar), random
     for i in range(30 if quick else 600):
         ds = overload_program(rng)
         cases.append(Case(ds, "overload-plain", src=cg.Printer(None, sugar=False).program(ds)))
+    # the known finding: comparisons as neighbouring arguments / elements are taken for a generic binding
+    for ds, src in generic_binding_cases():
+        cases.append(Case(ds, "generic-binding", src=src))
     res = three_way(chk, cases, "c02", nontrivial=lambda c, ev: len(ev.out) > 0)
     n_user = sum(1 for (c, ci, cm, co, ev) in res if c.tag.startswith("overload") and ev.out)
     chk.coverage["overload_programs_whose_user_body_ran"] = n_user
@@ -616,7 +649,7 @@ def run(chk):
     cases = []
     for rep in range(3 if quick else 40):
         for ds, tag in order_programs(rng):
-            cases.append(Case(ds, tag, src=SugarPrinter(rng).program(ds)))
+            cases.append(Case(ds, tag, src=spell(chk, ds, rng)))
     res = three_way(chk, cases, "c02", nontrivial=lambda c, ev: True)
     for c, ci, cm, co, ev in res[:1]:
         chk.sample({"program": c.src, "out": ci.get("out")})
